@@ -926,7 +926,9 @@ func (p *parser) extractMods(t, outm []byte) ([]byte, []mod, bool) {
 				if fn == nil {
 					continue
 				}
-				if noesc = fnName == "raw" || fnName == "noesc"; noesc {
+				if fnName == "raw" || fnName == "noesc" {
+					// The value stays marked whatever modifiers follow the mark.
+					noesc = true
 					continue
 				}
 				args := p.extractArgs(m[2])
